@@ -257,6 +257,8 @@ func runC09(c *Ctx) {
 	}
 
 	ruleAllFilesProcessed(c, "C09.3")
+	// C09.9 a declaration is accepted or refused, never looped on
+	ruleLoopsMakeProgress(c, "C09.9", genPkg)
 
 	// ---- C09.4 cycle check on every success path that follows an edge insertion
 	c09Cycle(c)
